@@ -55,11 +55,20 @@ def make_hash(cfg):
         return None
     alt = cfg["alt"]
 
+    junk = 0
+    if cfg.get("by_rate"):
+        # keys carry hash bits ABOVE the fingerprint width the error rate asks for, so that a filter using another
+        # width (e.g. after a reload that derived it from the wrong bucket size) computes other fingerprints
+        import math
+
+        nbits = math.ceil(math.log2(1.0 / cfg["by_rate"]) + math.log2(cfg["bucket"]) + 1)
+        junk = 0b1011 << nbits
+
     def table_hash(key, *args):
         if isinstance(key, bytes):
             key = key.decode()
         if key.startswith("k") and "#" in key:
-            return int(key[1:].split("#")[0])
+            return int(key[1:].split("#")[0]) + junk
         if not key.isdigit():
             return fnv_1a(key)  # keys outside the alphabet (absent probes)
         fp = int(key)  # str(fingerprint): the value that selects the alternate bucket
